@@ -13,6 +13,11 @@ Inductive c06case :=
    whose index is in [cancelled] were dispatched under a context that was cancelled meanwhile:
    each of their shards may arrive or not, but at most once and only at its own worker *)
 | DispatchCase (batches : list (list datapoint)) (cancelled : list nat) (n : nat) (obs : list (list (list entry)))
+(* a real TagHandler with the given static tags in front of the dispatcher; obs as above (after
+   the tag stage).  exact = no filters configured: the final tag set of a datapoint is then its
+   tags together with the static tags, without duplicates *)
+| TaggedCase (batches : list (list datapoint)) (static : list str) (exact : bool) (n : nat)
+             (obs : list (list (list entry)))
 (* Split called repeatedly in one process: (datapoints, n, observed shards) per call *)
 | SplitSeqCase (rounds : list (list datapoint * nat * list (list entry))).
 
@@ -79,6 +84,39 @@ Definition check_dispatch (batches : list (list datapoint)) (cancelled : list na
 Definition check_round (r : list datapoint * nat * list (list entry)) : bool :=
   let '(dps, n, shards) := r in all2 dump_matches shards (split_c n (receive_all empty_map dps)).
 
+(* tag stage + dispatch.  Every entry a worker received is stored under the tags key of its own
+   (source, tags) and sits at the worker that key hashes to; without filters the series found at
+   worker i are exactly the identities (name, tags ∪ static, source) of the input whose bucket is i *)
+Definition entry_id (e : entry) : str * str * str * list str :=
+  match e with
+  | EC nm k _ _ src tags | EG nm k _ _ src tags | ET nm k _ _ _ _ src tags | ES nm k _ _ src tags => (nm, k, src, tags)
+  end.
+Definition entry_placed (n : nat) (i : nat) (e : entry) : bool :=
+  let '(nm, k, src, tags) := entry_id e in
+  str_eqb k (tags_key src tags) && N.eqb (bucket nm k (N.of_nat n)) (N.of_nat i).
+Fixpoint dedup_strs (l : list str) : list str :=
+  match l with
+  | [] => []
+  | x :: r => if existsb (str_eqb x) r then dedup_strs r else x :: dedup_strs r
+  end.
+Definition skey_eqb (a b : skey) : bool := str_eqb (fst a) (fst b) && str_eqb (snd a) (snd b).
+Definition subset_keys (a b : list skey) : bool := forallb (λ x, existsb (skey_eqb x) b) a.
+Definition final_key (static : list str) (d : datapoint) : skey :=
+  (dp_name d, tags_key (dp_src d) (dedup_strs (dp_tags d ++ static))).
+Definition check_tagged (batches : list (list datapoint)) (static : list str) (exact : bool) (n : nat)
+    (obs : list (list (list entry))) : bool :=
+  let want := map (final_key static) (concat batches) in
+  (length obs =? n)%nat &&
+  all2 (λ i o,
+          let es := concat o in
+          forallb (entry_placed n i) es &&
+          (if exact then
+             let have := map (λ e, let '(nm, k, _, _) := entry_id e in (nm, k)) es in
+             let mine := List.filter (λ k, N.eqb (bucket (fst k) (snd k) (N.of_nat n)) (N.of_nat i)) want in
+             subset_keys have mine && subset_keys mine have
+           else true))
+       (seq 0 n) obs.
+
 Definition check_case (c : c06case) : bool :=
   match c with
   | KeyCase src tags k => str_eqb (tags_key src tags) k
@@ -87,13 +125,15 @@ Definition check_case (c : c06case) : bool :=
       let m := receive_all empty_map dps in
       dump_matches whole m && all2 dump_matches shards (split_c n m)
   | DispatchCase batches cancelled n obs => check_dispatch batches cancelled n obs
+  | TaggedCase batches static exact n obs => check_tagged batches static exact n obs
   | SplitSeqCase rounds => forallb check_round rounds
   end.
 
 Inductive c06explain :=
 | XKey (k : str) | XBucket (b : N) | XSplit (whole : list entry) (shards : list (list entry))
 | XDispatch (required optional : list (list (list entry)))
-| XSplitSeq (shards : list (list (list entry))).
+| XSplitSeq (shards : list (list (list entry)))
+| XTagged (expected_series : list (nat * skey)).
 Definition explain_case (c : c06case) : c06explain :=
   match c with
   | KeyCase src tags _ => XKey (tags_key src tags)
@@ -103,6 +143,8 @@ Definition explain_case (c : c06case) : c06explain :=
       let sps := batch_splits batches n in
       XDispatch (map (λ i, map entries (worker_feed i (pick_batches false cancelled sps))) (seq 0 n))
                 (map (λ i, map entries (worker_feed i (pick_batches true cancelled sps))) (seq 0 n))
+  | TaggedCase batches static _ n _ =>
+      XTagged (map (λ d, let k := final_key static d in (N.to_nat (bucket (fst k) (snd k) (N.of_nat n)), k)) (concat batches))
   | SplitSeqCase rounds =>
       XSplitSeq (map (λ r, let '(dps, n, _) := r in map entries (split_c n (receive_all empty_map dps))) rounds)
   end.
